@@ -477,7 +477,7 @@ def build_func(unit, f, grws):
     reshaped = False
     if f.loops:
         lps = loops_in(toks, body_open + 1, body_close)
-        if len(lps) == 0 and f.kind == 'fn':
+        if len(lps) == 0 and f.kind in ('fn', 'region'):
             # R-reshape: the function has no loop any more.  A loop-free body needs no invariant: the loop annotations
             # (and the hints whose anchors are gone) are dropped and the body is checked against the same contract.
             reshaped = True
